@@ -77,6 +77,16 @@ func (g *Global) protectsFor(st types.Type, field string, elems bool) []protectD
 			out = append(out, p)
 		}
 	}
+	if len(out) == 0 && !elems {
+		// T.* : a rule for every field of T that has no rule of its own
+		for _, p := range g.protects {
+			if p.pkg == n.Obj().Pkg().Path() && p.typ == n.Obj().Name() && p.field == "*" && !p.elems {
+				q := p
+				q.field = field
+				out = append(out, q)
+			}
+		}
+	}
 	return out
 }
 
